@@ -8,6 +8,7 @@ import AnonCreds.Model.Transcript
 import AnonCreds.Model.Range
 import AnonCreds.Model.Issue
 import AnonCreds.Model.Codecs
+import AnonCreds.Model.Membership
 /-
 Line-protocol driver: one request per line on stdin, one reply per line on stdout.
 Unknown or malformed requests answer `bad-op` (never a default value).
@@ -352,6 +353,45 @@ def codecOp (toks : List String) : Option String :=
       | none => "err"
   | _ => none
 
+/-- membership proof in coordinates over the bases `[V₀, X, Y, Z]` given (as compressed points) in the request -/
+def membershipOp (toks : List String) : Option String :=
+  open AC.Membership in
+  let v4? : String → Option V4 := fun s =>
+    match listOf? frOf? s with
+    | some [a, b, c, d] => some ⟨a, b, c, d⟩
+    | _ => none
+  let lin : List String → V4 → String := fun bs v =>
+    match bs with
+    | [b0, b1, b2, b3] => s!"{b0}:{frHex v.a};{b1}:{frHex v.b};{b2}:{frHex v.c};{b3}:{frHex v.d}"
+    | _ => "?"
+  let g1 := fun bs v => "@lin(" ++ lin bs v ++ ")"
+  let gt := fun bs v => "@gtlin(" ++ lin bs v ++ ")"
+  let showC := fun bs (m : Commitments V4) =>
+    " ".intercalate [gt bs m.rE, g1 bs m.rSigma, g1 bs m.rRho, g1 bs m.rDeltaSigma, g1 bs m.rDeltaRho]
+  match toks with
+  | ["mp.prove", b0, b1, b2, b3, alpha, y, cw, coins, c] =>
+    match frOf? alpha, frOf? y, v4? cw, listOf? frOf? coins, frOf? c with
+    | some alpha, some y, some cw, some [sg, rh, ry, rs, rr, rds, rdr], some c =>
+      let bs := [b0, b1, b2, b3]
+      let k : Coins Fr := ⟨sg, rh, ry, rs, rr, rds, rdr⟩
+      let p := genProof stdParams y cw k c
+      let cm := (commit stdParams alpha cw k).2.2.2
+      some (" ".intercalate [g1 bs p.ec, g1 bs p.tSigma, g1 bs p.tRho, frHex p.sSigma, frHex p.sRho,
+        frHex p.sDeltaSigma, frHex p.sDeltaRho, frHex p.sY, showC bs cm])
+    | _, _, _, _, _ => none
+  | ["mp.accepts", alpha, y, cw, v, coins, c] =>
+    match frOf? alpha, frOf? y, v4? cw, v4? v, listOf? frOf? coins, frOf? c with
+    | some alpha, some y, some cw, some v, some [sg, rh, ry, rs, rr, rds, rdr], some c =>
+      let k : Coins Fr := ⟨sg, rh, ry, rs, rr, rds, rdr⟩
+      some (toString (decide (finalize stdParams alpha v c (genProof stdParams y cw k c) = (commit stdParams alpha cw k).2.2.2)))
+    | _, _, _, _, _, _ => none
+  | ["mp.finalize", b0, b1, b2, b3, alpha, v, c, ec, ts, tr, ss] =>
+    match frOf? alpha, v4? v, frOf? c, v4? ec, v4? ts, v4? tr, listOf? frOf? ss with
+    | some alpha, some v, some c, some ec, some ts, some tr, some [sS, sR, sDS, sDR, sY] =>
+      some (showC [b0, b1, b2, b3] (finalize stdParams alpha v c ⟨ec, ts, tr, sS, sR, sDS, sDR, sY⟩))
+    | _, _, _, _, _, _, _ => none
+  | _ => none
+
 def answer (d : DState) (line : String) : DState × String :=
   let toks := (line.trimAscii.toString.splitOn " ").filter (· ≠ "")
   match claimsOp toks with
@@ -376,6 +416,9 @@ def answer (d : DState) (line : String) : DState × String :=
   | some r => (d, r)
   | none =>
   match codecOp toks with
+  | some r => (d, r)
+  | none =>
+  match membershipOp toks with
   | some r => (d, r)
   | none =>
   match regOp d toks with
